@@ -408,7 +408,7 @@ def spaces(tier, variant, seed):
         if variant != "asan":
             hs = [(33000, 33000), (33600, 33000), (40000, 26000)]
             if not quick:
-                hs += [(66000, 22100), (50000, 50000), (65536, 65536), (70000, 70000), (131072, 131072), (200000, 100000), (262144, 262000), (100000, 33400), (524288, 524288)]
+                hs += [(66000, 22100), (50000, 50000), (65536, 65536), (70000, 70000), (131072, 131072), (200000, 100000), (262144, 262000), (100000, 33400)]
             sp.append(Space("pin_fft_mfa_regime", [(u, v, part) for (u, v) in hs for part in range(6)], huge_cases, huge_one,
                             "mpn_mul in the matrix-Fourier FFT regime (un+vn above 65 k limbs): all-ones x all-ones, squares, single-bit and sparse operands at coefficient-width multiples (1530 bits) and limb edges x dense, all-ones x dense: closed-form oracles"))
 
